@@ -47,7 +47,7 @@ def run(ctx):
         bad = sorted(d for d in listed if d not in allowed and d and through_link(d)) if only_gstar_prefix else []
         if bad:
             # a known hidden-segment defect lets the walker enter hidden directories the reference never lists
-            if (globcommon.group_first(pp) or globcommon.star_then_wild(pp)) and all(globcommon.hid(d) or d in ('.', '..') or d.startswith(('./', '../')) for d in bad):
+            if ((globcommon.group_then_wild(pp) or globcommon.group_segment_can_be_empty(pp)) or globcommon.star_then_wild(pp)) and all(globcommon.hid(d) or d in ('.', '..') or d.startswith(('./', '../')) for d in bad):
                 return
             if merged_mb and ctx.is_known(lambda e: e['id'] == 'C05-matchbase-merged-globstars'):
                 return
@@ -58,7 +58,7 @@ def run(ctx):
         for x in sorted(got - ub):
             parts = x.split('/')
             if any(os.path.islink(os.path.join(T.root, *parts[:k])) and os.path.isdir(os.path.join(T.root, *parts[:k])) for k in range(1, len(parts))):
-                if globcommon.group_first(pp) or globcommon.star_then_wild(pp):
+                if (globcommon.group_then_wild(pp) or globcommon.group_segment_can_be_empty(pp)) or globcommon.star_then_wild(pp):
                     continue
                 if merged_mb and ctx.is_known(lambda e: e['id'] == 'C05-matchbase-merged-globstars'):
                     continue
@@ -72,7 +72,7 @@ def run(ctx):
             stats['evals'] += 1
             if Gm.globmatch(p, pattern, flags=fv | Gm.REALPATH, root_dir=T.root):
                 segs = pp.split(':')[1].split('/')
-                if globcommon.group_first(pp) or globcommon.star_then_wild(pp) or (c['matchbase'] and globcommon.hid(p)):
+                if (globcommon.group_then_wild(pp) or globcommon.group_segment_can_be_empty(pp)) or globcommon.star_then_wild(pp) or (c['matchbase'] and globcommon.hid(p)):
                     continue     # C02/C03 known sites
                 if pp.endswith(':T') and segs[-1] in ('g', 'G') and not os.path.isdir(os.path.join(T.root, p)) and \
                         ctx.is_known(lambda e: e['id'] == 'C04-gstar-div-accepts-file'):
